@@ -48,5 +48,20 @@ pub fn run(only: &[String]) -> Vec<String> {
         if eg.eq(&ids[0], &v) { fails.push(format!("FAIL EGraph::eq C01:eq.decision asserted symmetries {:?}: (f3 x y z) equals (var x)", gens)); }
         if fails.len() >= 3 { return fails; }
     }
+    // old handles: (g2 x y) merged into (f3 x y z), making z redundant; handles taken before must still compare correctly
+    {
+        verif_case("old handles across a union that makes a slot redundant".to_string());
+        let mut eg: EGraph<EL> = EGraph::default();
+        let f = eg.add_expr(RecExpr::parse("(f3 (var $x) (var $y) (var $z))").unwrap());
+        let g = eg.add_expr(RecExpr::parse("(f3 (var $x) (var $y) (var $x))").unwrap());
+        let f_old = f.clone(); let g_old = g.clone();
+        eg.union(&f, &g);
+        let f2 = eg.add_expr(RecExpr::parse("(f3 (var $x) (var $y) (var $w))").unwrap());
+        let f3 = eg.add_expr(RecExpr::parse("(f3 (var $y) (var $x) (var $w))").unwrap());
+        for (a, b, e, what) in [(&f_old, &g_old, true, "f(x,y,z) = f(x,y,x) after their union (old handles)"), (&f_old, &f2, true, "f(x,y,z) = f(x,y,w): the third argument became redundant"), (&f_old, &f3, false, "f(x,y,z) = f(y,x,w) was never asserted")] {
+            let got = eg.eq(a, b);
+            if got != e { fails.push(format!("FAIL EGraph::eq C01:eq.decision {}: got {} expected {}", what, got, e)); }
+        }
+    }
     fails
 }
